@@ -354,6 +354,8 @@ def check_modes(case, stats):
     if r.returncode != 0:
         raise Violation(case, "a fresh interpreter started with %r does not get through the rejected documents: %s" % (case["flags"], r.stderr[-500:]))
     there = json.loads(r.stdout)
+    if len(there) != len(texts):
+        raise Violation(case, "the interpreter started with %r reported on %d of %d documents" % (case["flags"], len(there), len(texts)))
     for t, a, b in zip(texts, here, there):
         if json.loads(json.dumps(a)) != b:
             raise Violation(dict(case, text=t), "errors reported in an interpreter started with %r differ: %r vs %r\n%s" % (case["flags"], b[0][1][:2] if b[0][0] == "err" else b[0][0], a[0][1][:2] if a[0][0] == "err" else a[0][0], t))
